@@ -841,7 +841,6 @@ func sortedAfter(w *World, f *ssa.Function, hdr *ssa.BasicBlock, body map[*ssa.B
 
 func rulesC08(w *World, o *Out) {
 
-
 	fl := NewFlow(w)
 	o.Rule("C08.R1", "no process-environment, wall-clock, randomness or runtime-state source, goroutine start or select is reachable (module-restricted VTA reachability) from a transaction / block / governance / wasm / hook entry point, unless its value flows only into logging or telemetry")
 	o.Rule("C08.R2", "every production range over a map is order-insensitive (E0), builds a slice that is sorted before any other use (E1-sorted), or is individually justified; early exits, last-writer-wins assignments, float accumulation and state-mutating calls inside a map range are violations")
@@ -1525,4 +1524,3 @@ func zoneSensitiveUse(v ssa.Value, depth int) string {
 	}
 	return ""
 }
-
